@@ -265,6 +265,15 @@ def main(modname, tier, replay=None):
         log("replay: property %s held on %s" % (mod.ID, replay))
         return 0
 
+    # replay files of earlier runs of this property would only confuse
+    outdir = os.path.join(VERIF_ROOT, "replays", "out")
+    if os.path.isdir(outdir):
+        for fn in os.listdir(outdir):
+            if fn.startswith(mod.ID + "-"):
+                try:
+                    os.remove(os.path.join(outdir, fn))
+                except OSError:
+                    pass
     jobs = list(mod.jobs(tier, seed))
     reg = regress_files(mod.ID)
     if reg:
